@@ -54,6 +54,7 @@ def _install_probes(kd):
     def check_for_loopcarried_dep(self, kernel, *a, **kw):
         t = current_task()
         if t is not None:
+            t.sim.captured["kg"] = self
             t.sim.captured["search_enter"] = t.sim.now
             t.sim.captured["in_search"] = True
             t.sim.ev("search-enter")
@@ -86,7 +87,7 @@ class Case:
         self.name, self.arch, self.text = name, arch.lower(), text
         self.flag_deps, self.fixed, self.lines = flag_deps, fixed, lines
         self.kernel = None
-        self.ref = None  # ("ok", canon, text, dict-summary) or ("intractable",)
+        self.path = None  # kernel file in the scratch directory (for runs through the CLI entry point)
 
     def key(self):
         return (self.name, self.arch, self.flag_deps, self.fixed)
@@ -144,7 +145,8 @@ class RunResult:
 
 
 def run_analysis(case, workers, timeout, chooser, threshold, max_steps=200000, deadline_slack=None,
-                 parent_cost=None, speeds=None, start_delays=None, want_report=True, extra_inv=None, rtt=None):
+                 parent_cost=None, speeds=None, start_delays=None, want_report=True, extra_inv=None, rtt=None,
+                 via_cli=False):
     """One simulated analysis.  Returns RunResult with everything the oracles need."""
     import osaca.semantics.kernel_dg as kd
     case.prepare()
@@ -192,15 +194,43 @@ def run_analysis(case, workers, timeout, chooser, threshold, max_steps=200000, d
         out["lcd"] = canon_lcd(kg.get_loopcarried_dependencies())
         if want_report:
             fe = case.frontend
-            out["text"] = strip_ts(fe.full_analysis(kernel, kg, lcd_warning=kg.timed_out))
+            out["text"] = strip_ts(fe.full_analysis(kernel, kg, lcd_warning=kg.timed_out)).rstrip("\n")
             d = fe.full_analysis_dict(kernel, kg, lcd_warning=kg.timed_out)
             out["warnings"] = list(d["Warnings"])
             out["summary"] = d["Summary"]
             out["cp"] = [(x.line_number, x.latency_cp) for x in kg.get_critical_path()]
         return out
 
+    def analysis_cli():
+        """The same analysis through the real entry point osaca.osaca.run -> inspect (argument wiring,
+        lcd_warning=kernel_graph.timed_out, --yaml-out), on the kernel file in the scratch directory."""
+        import io
+        import osaca.osaca as o
+        p = o.create_parser()
+        argv = ["--arch", case.arch] + (["-f"] if case.flag_deps else []) + (["--fixed"] if case.fixed else []) + [case.path]
+        args = p.parse_args(argv)
+        o.check_arguments(args, p)
+        args.lcd_timeout = timeout  # argparse's type=int would reject the non-integer timeouts the API accepts
+        args.yaml_out = io.StringIO()
+        buf = io.StringIO()
+        try:
+            o.run(args, output_file=buf)
+        finally:
+            args.file.close()
+        kg = sim.captured.get("kg")
+        kernel = kg.kernel
+        out = {"kg": kg, "kernel": kernel, "timed_out": kg.timed_out}
+        out["lcd"] = canon_lcd(kg.get_loopcarried_dependencies())
+        out["text"] = strip_ts(buf.getvalue()).rstrip("\n")
+        y = args.yaml_out.getvalue()
+        out["warnings"] = ["LCDWarning"] if "LCDWarning" in y else []
+        d = case.frontend.full_analysis_dict(kernel, kg, lcd_warning=kg.timed_out)
+        out["summary"] = d["Summary"]
+        out["cp"] = [(x.line_number, x.latency_cp) for x in kg.get_critical_path()]
+        return out
+
     try:
-        res.out = sim.run(analysis, trace=True, line_cost=parent_cost)
+        res.out = sim.run(analysis_cli if via_cli else analysis, trace=True, line_cost=parent_cost)
     finally:
         kd.KernelDG.INSTRUCTION_THRESHOLD = saved_thr
     res.lines = sum(t.lines for t in sim.tasks)
